@@ -4,6 +4,7 @@ import Noodles.Cram.Mates
 import Noodles.Cram.Container
 import Noodles.Cram.DriverC07Enc
 import Noodles.Cram.DriverC07Sam
+import Noodles.Cram.DriverC07Chunk
 /-! Line-protocol handler for the CRAM record / mate / container models (`c07 …`). -/
 namespace Noodles.Cram.Drv
 open Noodles.Wire
@@ -125,6 +126,7 @@ def handleC07 : List String → String
     | none => "bad-op"
   | ["eof"] => hexN Container.eof
   | "sam" :: ws => (DrvSam.handle ("sam" :: ws)).getD "bad-op"
+  | "chunk" :: ws => (DrvChunk.handle ("chunk" :: ws)).getD "bad-op"
   | ws => (DrvEnc.handle ws).getD "bad-op"
 
 end Noodles.Cram.Drv
